@@ -103,7 +103,7 @@ class RScn:
         self.none_is_leaf = bool(t.draw(2, 'nil'))
         n_custom = 1 + t.draw(3, 'n-custom')
         for cls in U.CUSTOM_CLASSES[:n_custom]:
-            self.reg.register(cls, self.ns, style=t.choice((0, 0, 1, 2, 3), 'style'))
+            self.reg.register(cls, self.ns, style=t.choice((0, 0, 1, 2, 3), 'style'), path_entry_type=t.choice((None, None, U.HookEntry), 'entry-type'))
         ctx = gen.swarm_ctx(t, custom_classes=U.CUSTOM_CLASSES[:n_custom])
         self.ctx = ctx
         self.pristine = gen.gen_tree(t, 3 + t.draw(20, 'budget'), ctx)
